@@ -47,7 +47,7 @@ class C04(Prop):
                "to a Gallina term)", "string matches of plain text strings computed by Python's bytes.find"]
     ASSUMPTIONS = ["the expression parser and compile_expression are not modelled: a mis-parse shows up as a verdict "
                    "mismatch", "floats, regex values, `matches`, `entrypoint` and module values are outside the model",
-                   "percentages: only (p, n) on which binary64 ceil(p/100*n) equals the exact value are drawn"]
+                   "percentages: only (p, n) on which the code's binary64 computation (vlib/cond.pct_quota_impl, following fix a93a70c) equals the exact ceil(p*n/100) of the model are drawn"]
 
     def budget(self, tier):
         return 900 if tier == "quick" else 12000
